@@ -19,7 +19,8 @@ COMMON_ASSUMPTIONS = [
     "a clean batch is evidence, not proof: the schedule/fault space is sampled",
 ]
 
-KF_GATES = dict(join_partial=True, join_in_loop=True, retry_when_completed=True, with_items_in_loop=True)
+KF_GATES = dict(join_partial=True, join_in_loop=True, retry_when_completed=True, with_items_in_loop=True,
+                dict_republish=True)
 
 
 _KF_PROPS = None
@@ -146,7 +147,8 @@ class SingleRun(object):
         from dst.checks import prog_from_json
         prog = prog_from_json(case["ast"])
         profile = self.replay_profile()
-        ops, ok = driver.shrink_ops(prog, case["ops"], profile, vi["prop"], vi["clause"], opts=case.get("world_opts"))
+        ops, ok = driver.shrink_ops(prog, case["ops"], profile, vi["prop"], vi["clause"], kf=vi.get("kf"),
+                                    opts=case.get("world_opts"))
         if ok:
             case = dict(case)
             case["ops_unshrunk"] = len(case["ops"])
